@@ -1202,6 +1202,27 @@ fn run_dig(c: &Case, buf: &mut String) {
                 }))
                 .unwrap_or("PANIC");
                 out(buf, &format!("LOADRENDER {i} {rendered}"));
+                let carried = catch_unwind(AssertUnwindSafe(|| match file.load_test(i) {
+                    Ok(_) => "none".to_string(),
+                    Err(e) => {
+                        use miette::Diagnostic;
+                        match e.source_code() {
+                            None => "nosource".to_string(),
+                            Some(sc) => match sc.read_span(&miette::SourceSpan::from((0usize, 0usize)), 0, 10_000_000) {
+                                Ok(contents) => {
+                                    if contents.data() == t.source.as_bytes() {
+                                        "same".to_string()
+                                    } else {
+                                        "DIFFERENT".to_string()
+                                    }
+                                }
+                                Err(_) => "unreadable".to_string(),
+                            },
+                        }
+                    }
+                }))
+                .unwrap_or_else(|_| "PANIC".to_string());
+                out(buf, &format!("LOADSRC {i} {carried}"));
                 let loaded = catch_unwind(AssertUnwindSafe(|| file.load_test(i).ok()));
                 let by_name = catch_unwind(AssertUnwindSafe(|| file.load_test_by_name(&t.name).ok()));
                 let first_with_name = file.test_cases.iter().position(|x| x.name == t.name).unwrap();
@@ -1304,7 +1325,9 @@ fn run_case(c: &Case) -> String {
                                     .filter(|l| l.starts_with("ROW ") || l.starts_with("ITEM "))
                                     .map(|l| l.to_string())
                                     .collect();
-                                let main_calls = buf.lines().filter(|l| l.starts_with("CALL ")).count();
+                                let main_call_lines: Vec<String> =
+                                    buf.lines().filter(|l| l.starts_with("CALL ")).map(|l| l.to_string()).collect();
+                                let main_calls = main_call_lines.len();
                                 let ended = buf.lines().any(|l| l == "END none");
                                 verif_hooks::set_seed_override(Some(c.seed));
                                 let sh2 = Sh::default();
@@ -1339,6 +1362,14 @@ fn run_case(c: &Case) -> String {
                                 }))
                                 .unwrap_or_else(|_| "PANIC".to_string());
                                 let calls2 = sh2.borrow().log.len();
+                                let verdict = if verdict.is_empty() {
+                                    match sh2.borrow().log.iter().zip(main_call_lines.iter()).position(|(a, b)| a != b) {
+                                        Some(i) => format!("call {i} differs: [{:.60}] vs [{:.60}]", sh2.borrow().log[i], main_call_lines[i]),
+                                        None => verdict,
+                                    }
+                                } else {
+                                    verdict
+                                };
                                 let want_calls = if ended || main_items.len() % 2 == 0 { main_calls } else { calls2 };
                                 let _ = verif_hooks::take_rng_log();
                                 if verdict.is_empty() && (calls2 <= main_calls) && (calls2 == want_calls || calls2 + 1 >= main_calls) {
